@@ -508,7 +508,7 @@ pub fn run(ctx: &Ctx) -> i32 {
         }
     });
     rep.add(out);
-    let cases = ctx.tier.pick(40_000, 1_500_000);
+    let cases = ctx.tier.pick(400_000, 6_000_000);
     let out = run_tapes("C04", ctx.seed, ctx.threads, cases, 1500, |tape, stats, counting| {
         let g = Gates::with_off(off.clone());
         check_tape(tape, &g, &sigs, stats, counting)
